@@ -12,6 +12,7 @@ use std::io::{self, BufRead, Write};
 use std::panic::{catch_unwind, AssertUnwindSafe};
 
 pub mod raster_common;
+pub mod render_common;
 pub mod util;
 
 use util::{Rng, Tier};
